@@ -25,7 +25,7 @@ func buildGxz(c *hx.Ctx) string {
 	bin := filepath.Join(c.Scratch, "gxz")
 	cmd := exec.Command("go", "build", "-o", bin, "github.com/ulikunitz/xz/cmd/gxz")
 	cmd.Dir = hx.Root
-	cmd.Env = append(os.Environ(), "GOFLAGS=-mod=mod", "GOPROXY=off", "GOSUMDB=off", "GOTOOLCHAIN=local", "CGO_ENABLED=0")
+	cmd.Env = hx.GoEnv("CGO_ENABLED=0")
 	if out, err := cmd.CombinedOutput(); err != nil {
 		c.Inconclusive("cannot build gxz: %v\n%.500s", err, out)
 		return ""
